@@ -280,9 +280,7 @@ Proof.
     cbn [documented odocumented]; rewrite Eo.
     destruct (scalar s m || scalar s d). { gret. }
     destruct (Nat.leb nseg 1).
-    + destruct (wr s d _) as [s2|] eqn:W.
-      * destruct (T_wr _ _ _ _ _ _ _ T0 W) as (T1 & L1). tset T1. gret.
-      * gfl.
+    + talloc T0 s2 d2 T2. tset T2. gret.
     + talloc T0 s2 d2 T2. tset T2. gret.
   - (* on a deep copy *)
     destruct (dcopy s a d m) as [sq [[a' d'] m']] eqn:Ec. destruct (T_dcopy _ _ _ _ _ _ _ _ _ _ _ T0 Ec) as (Tc & Ha' & Hd' & Hm').
@@ -290,9 +288,7 @@ Proof.
     assert (length (ob s) <= j')%nat as Lj by (pose proof (T_olen _ _ _ _ Tc); lia).
     destruct (scalar sp m' || scalar sp d'). { gret. }
     destruct (Nat.leb nseg 1).
-    + destruct (wr sp d' _) as [s2|] eqn:W.
-      * destruct (T_wr _ _ _ _ _ _ _ Tp W) as (T1 & L1). tsetn T1 Lj. gret.
-      * gfl.
+    + talloc Tp s2 d2 T2. tsetn T2 Lj. gret.
     + talloc Tp s2 d2 T2. tsetn T2 Lj. gret.
 Qed.
 
@@ -611,8 +607,6 @@ Lemma documented_visible s o i : In i (documented s o) -> In i (visible s).
 Proof.
   destruct o; cbn; try tauto.
   - destruct (getarr s r) eqn:E; cbn; try tauto. intros [<-|[]]. eapply getarr_visible; eauto.
-  - destruct inplace; cbn; try tauto. destruct (getobj s p) as [[j [a d m tl n k| |]]|] eqn:E; cbn; try tauto.
-    intros [<-|[]]. destruct (plane_vis _ _ _ _ _ _ _ _ _ E) as (_ & H & _); exact H.
   - destruct scratch as [r|]; cbn; try tauto. destruct (getarr s r) eqn:E; cbn; try tauto. intros [<-|[]]. eapply getarr_visible; eauto.
   - destruct (getarr s out) eqn:E; cbn; try tauto. intros [<-|[]]. eapply getarr_visible; eauto.
   - destruct out as [r|]; cbn; try tauto. destruct (getarr s r) eqn:E; cbn; try tauto. intros [<-|[]]. eapply getarr_visible; eauto.
